@@ -134,3 +134,22 @@ Proof.
   - vm_compute. eexists. eexists. split; [reflexivity | discriminate].
   - split; [vm_compute; reflexivity|]. vm_compute. repeat split.
 Qed.
+
+(* chewing_handle_Enter after ANY sequence of C calls: in the editing state with a non-empty buffer - on every keyboard
+   layout the context may have selected, with any modifier bits - the commit string is exactly the pre-edit string
+   chewing_buffer_String showed before the call (the conversion of the buffer by the installed engine, with all
+   choices, breaks and the alternative selected with Tab), the buffer is empty afterwards and the key result is Commit *)
+From LC Require Import Proofs.CapiPassthrough Proofs.CapiEnter.
+Theorem C02_handle_Enter_commits_the_buffer_String_after_any_C_calls : forall ss d ab t0 ops c mods c',
+  ss_good ss -> ss_cursor ss = None -> md_fine d -> Forall cop_fine ops ->
+  crun mf_conv (cx_init d ab ss t0) ops = Ok c ->
+  (mods < 16)%N -> st (cx_ed c) = Entering -> (0 < chewing_buffer_Len c)%Z ->
+  cstep mf_conv c (CHandle kc_Enter mods) = Ok c' ->
+  c_commit_string c' = chewing_buffer_String mf_conv c /\ chewing_buffer_Len c' = 0%Z /\ last (sh (cx_ed c')) = BCommit /\
+  chewing_keystroke_CheckIgnore c' = 0%Z /\ chewing_keystroke_CheckAbsorb c' = 0%Z /\ st (cx_ed c') = Entering.
+Proof.
+  intros ss d ab t0 ops c mods c' Hg Hf Hd Hops H Hm Hst Hlen Hs.
+  apply (c_enter_commits_display mf_conv ss c mods c'); try assumption.
+  exact (crun_inv mf_conv mf_conv_tiles ss Hg Hf ops (cx_init d ab ss t0) c Hops (cx_init_inv ss d ab t0 Hg Hf Hd) H).
+Qed.
+Print Assumptions C02_handle_Enter_commits_the_buffer_String_after_any_C_calls.
